@@ -20,8 +20,8 @@ C02_EVENTS = {"slice", "read", "reshape", "reshape-error", "reshape-error-missin
 def configs(ctx):
     if ctx.quick:
         return [("NdArray_views.cfg", None), ("NdArray_alias.cfg", None), ("NdArray_writes.cfg", None),
-                ("NdArray_reduce.cfg", None), ("NdArray_zstep.cfg", None), ("NdArray_bcast.cfg", None), ("NdArray_siblings.cfg", None), ("NdArray_sim.cfg", (20, 14))]
-    return [("NdArray_views.cfg", None), ("NdArray_alias.cfg", None), ("NdArray_writes.cfg", None), ("NdArray_reduce.cfg", None), ("NdArray_zstep.cfg", None), ("NdArray_bcast_t.cfg", None), ("NdArray_siblings.cfg", None),
+                ("NdArray_reduce.cfg", None), ("NdArray_zstep.cfg", None), ("NdArray_bcast.cfg", None), ("NdArray_siblings.cfg", None), ("NdArray_neg.cfg", None), ("NdArray_negw.cfg", None), ("NdArray_sim.cfg", (20, 14))]
+    return [("NdArray_views.cfg", None), ("NdArray_alias.cfg", None), ("NdArray_writes.cfg", None), ("NdArray_reduce.cfg", None), ("NdArray_zstep.cfg", None), ("NdArray_bcast_t.cfg", None), ("NdArray_siblings.cfg", None), ("NdArray_neg.cfg", None), ("NdArray_negw.cfg", None),
             ("NdArray_views_t.cfg", None), ("NdArray_views3.cfg", None), ("NdArray_writes_t.cfg", None), ("NdArray_sim.cfg", (240, 16))]
 
 
@@ -68,6 +68,7 @@ def run(ctx):
             ndarray.account(ctx, st, s)
             ndarray.report_fails(ctx, s, "C02")
     index_ops(ctx)
+    ndarray.big_arrays(ctx, ("footprint", "bulk"))
     run_traces(ctx, C02_EVENTS, "C02", 150 if ctx.quick else 2500, 40)
     ctx.assumptions += ["test values are small non-negative integers (exact in all 8 element types)",
                         "two-array operations on overlapping views are only generated when the order of element transfers cannot matter (the statement does not say whether a memmove-style fast path or the sequential definition wins there)",
